@@ -1,5 +1,7 @@
-(* C12/Spec.v — "parsing hostile message bytes never crashes": the statement, and the decidable classes of inputs on
-   which the code as it is does crash (each named by its cause in the input, not by the crash). *)
+(* C12/Spec.v — "parsing hostile message bytes never crashes": the statement.
+   (Before the fix: commits e5b4d5a2 and b3fdf920 three classes of inputs crashed: no input at all, input ending inside
+   the padding before the body, and a header string field that is not a valid name; since then the statement holds
+   for every input and this file no longer defines any known-deviation class.) *)
 From ZV Require Import Base.Bytes Base.Res Base.Sig C10.Model C11.Model.
 Open Scope N_scope.
 
@@ -13,38 +15,3 @@ Definition C12_statement_for (ctx : endian) (b : bytes) : Prop :=
   no_panic (from_raw_parts ctx b) /\ forall m, from_raw_parts ctx b = Ok m -> accessors_no_panic m.
 
 Definition C12_full_statement : Prop := forall ctx b, C12_statement_for ctx b.
-
-(* ---- known deviation classes ---- *)
-(* the bytes a cached field position denotes, if the field is present *)
-Definition fp_slice (b : bytes) (fp : fieldpos) : option bytes :=
-  let (s, e) := fp in
-  if (s <=? 1) && (e =? 0) then None else Some (takeN (e - s) (dropN s b)).
-Definition fp_invalid (validate : bytes -> bool) (b : bytes) (fp : fieldpos) : bool :=
-  match fp_slice b fp with Some s => negb (validate s) | None => false end.
-(* a header string field accepted at parse time without validation that is not a valid name of its kind
-   (interface, member, error name, sender: `TryFrom<Value>` derived on the name types does not validate) *)
-Definition bad_name (m : msg) : bool :=
-  let b := m_bytes m in let q := m_qf m in
-  fp_invalid validate_object_path b (q_path q) || fp_invalid validate_interface b (q_iface q)
-  || fp_invalid validate_member b (q_member q) || fp_invalid validate_error b (q_errname q)
-  || fp_invalid validate_bus b (q_dest q) || fp_invalid validate_unique b (q_sender q).
-
-Inductive c12class := KEmpty | KShortBody | KBadName | KNone.
-
-Definition classify12 (ctx : endian) (b : bytes) : c12class :=
-  match b with
-  | [] => KEmpty                                          (* no byte at all: from_raw_parts indexes bytes[0] *)
-  | _ =>
-      match from_raw_parts ctx b with
-      | Ok m => if len b <? m_body_offset m then KShortBody   (* the input ends inside the padding before the body *)
-                else if bad_name m then KBadName
-                else KNone
-      | _ => KNone
-      end
-  end.
-
-Definition Known_C12 (ctx : endian) (b : bytes) : bool :=
-  match classify12 ctx b with KNone => false | _ => true end.
-
-Definition class12_name (c : c12class) : bytes :=
-  match c with KEmpty => B "empty_input" | KShortBody => B "short_body" | KBadName => B "invalid_name" | KNone => B "-" end.
